@@ -82,7 +82,8 @@ class T1TSilicon(object):
                     if self.beyond == "mirror":
                         return bytes([data[1]]) + bytes(self.mem[0:128])
                     return bytes([data[1]]) + bytes(128)
-                return bytes([data[1]]) + bytes(self.mem[base:base + 128])
+                seg_data = bytes(self.mem[base:base + 128])
+                return bytes([data[1]]) + seg_data + bytes(128 - len(seg_data))
             blk = data[1]
             base = blk * 8
             if c == 0x02:
